@@ -447,7 +447,9 @@ def r05_3(prog, rep, rid='R05.3'):
     f = prog.find_method(comp, '_work_loop')
     rep.saw(f)
     g = cfg_of(f)
-    calls = [n for n in g.stmt_nodes() if n.kind == 'stmt' and any(
+    # the call may sit in an assignment or directly in the test (`if not
+    # self.work_cb(): break`)
+    calls = [n for n in g.stmt_nodes() if n.kind in ('stmt', 'test') and any(
         call_name(c) == 'self.work_cb' for c in calls_in(n.ast))]
     if not calls:
         raise AnalysisError('UNRECOGNISED-IDIOM %s: work_cb call' % f.where)
@@ -851,6 +853,1330 @@ def r05_6(prog, rep, rid='R05.6'):
 
 
 # ------------------------------------------------------------------------------
+# R05.7  error discipline of the per-thing `except` handlers of the components
+#
+# An `except` handler which deals with the thing of the current iteration (or
+# with a parameter of the method) by handing it on is a *failure path* of that
+# thing.  Structural necessary condition of "an error while handling the task
+# makes it FAILED, never DONE":
+#   (a) a hand-on in the handler to any state other than FAILED is only
+#       allowed to a non-final state and only under a guard which says that the
+#       task's own outcome (target_state) is already not DONE,
+#   (b) every path through the handler which does not re-raise fails the thing
+#       (hand-on as FAILED: directly, through a helper, or by collecting it
+#       into a local list whose consumer hands it on as FAILED),
+#   (c) a handler which records the exception on the thing does so on every
+#       path before it fails it.
+#
+_BASE_ADVANCE = ('self.advance',)
+_COLLECT = ('append', 'extend', 'add', 'insert', 'appendleft')
+_OUTCOME_KEYS = ('target_state', 'exit_code')
+_deps_cache = {}
+
+
+def _deps(f):
+    k = id(f.node)
+    if k not in _deps_cache:
+        _deps_cache[k] = Deps(f.node, implicit=False)
+    return _deps_cache[k]
+
+
+def _derived(f, e, V):
+    """expression e holds (a container of) one of the variables V"""
+    return e is not None and bool(_deps(f).expr_depends(e) & set(V))
+
+
+def _carries(e, V):
+    """e is one of the variables V or a literal list / tuple containing it"""
+    if isinstance(e, ast.Name):
+        return e.id in V
+    if isinstance(e, (ast.List, ast.Tuple)):
+        return any(_carries(x, V) for x in e.elts)
+    if isinstance(e, ast.Starred):
+        return _carries(e.value, V)
+    return False
+
+
+def _bind(callee, call):
+    """parameter name -> actual (or default) expression; None if the call
+    uses * / ** arguments"""
+    a = callee.node.args
+    pos = [x.arg for x in a.posonlyargs + a.args]
+    names = list(pos)
+    if pos and pos[0] in ('self', 'cls'):
+        pos = pos[1:]
+    out = {}
+    for i, x in enumerate(call.args):
+        if isinstance(x, ast.Starred):
+            return None
+        if i < len(pos):
+            out[pos[i]] = x
+    for k in call.keywords:
+        if k.arg is None:
+            return None
+        out[k.arg] = k.value
+    explicit = set(out)
+    for name, d in zip(names[len(names) - len(a.defaults):], a.defaults):
+        out.setdefault(name, d)
+    for x, d in zip(a.kwonlyargs, a.kw_defaults):
+        if d is not None:
+            out.setdefault(x.arg, d)
+    return out, explicit
+
+
+def _param_value(prog, K, f, name, env):
+    """value of the parameter `name` of f at its uses, given the value env[name]
+    it is called with: a re-assignment `if not name: name = C` replaces a falsy
+    actual; any other re-assignment makes the value unknown"""
+    v = env[name]
+    g = None
+    vals = []
+    for n in walk(f.node):
+        if isinstance(n, (ast.AugAssign, ast.For)) and \
+                name in stores_in_target(n.target):
+            return UNKNOWN
+        if not isinstance(n, ast.Assign):
+            continue
+        if not any(name in stores_in_target(t) for t in n.targets):
+            continue
+        g = g or cfg_of(f)
+        nodes = g.nodes_of(n)
+        if not nodes:
+            return UNKNOWN
+        for cn in nodes:
+            falsy = False
+            for tid, lab in guards(g, cn.id):
+                a = g.nodes[tid].ast
+                if isinstance(a, ast.Name) and a.id == name and lab == 'F':
+                    falsy = True
+                if isinstance(a, ast.Compare) and len(a.ops) == 1 and \
+                        isinstance(a.left, ast.Name) and a.left.id == name \
+                        and isinstance(a.comparators[0], ast.Constant) and \
+                        a.comparators[0].value is None and (
+                            (isinstance(a.ops[0], ast.Is) and lab == 'T') or
+                            (isinstance(a.ops[0], ast.IsNot) and lab == 'F')):
+                    falsy = True
+            if not falsy:
+                return UNKNOWN
+        vals.append(prog.fold(f.module, n.value, K))
+    if not vals:
+        return v
+    if v is UNKNOWN:
+        return UNKNOWN
+    if v:
+        return v
+    if len(set(map(repr, vals))) == 1:
+        return vals[0]
+    return UNKNOWN
+
+
+def _eval_state(prog, K, f, e, env):
+    if e is None or (isinstance(e, ast.Constant) and e.value is None):
+        return None
+    if env and isinstance(e, ast.Name) and e.id in env:
+        return _param_value(prog, K, f, e.id, env)
+    return prog.fold(f.module, e, K)
+
+
+def _is_base_advance(call):
+    cn = call_name(call)
+    return cn in _BASE_ADVANCE or (cn.startswith('super()') and
+                                   cn.endswith('.advance'))
+
+
+def _callee_of(prog, K, f, call, V):
+    """(callee, parameters which receive one of V, env) for a call of an own
+    method that is given one of V; None otherwise"""
+    cn = call_name(call)
+    if not cn.startswith('self.') or cn.count('.') != 1 or \
+            _is_base_advance(call):
+        return None
+    callee = prog.resolve_call(f, call, K)
+    if callee is None:
+        return None
+    b = _bind(callee, call)
+    if b is None:
+        return None
+    bound, explicit = b
+    Vc = {p for p in explicit if _derived(f, bound[p], V)}
+    if not Vc:
+        return None
+    return callee, Vc, bound, explicit
+
+
+def _handoffs(prog, K, f, call, V, env=None, depth=0):
+    """states in which the call hands on things that derive from V: set of
+    folded states (None: the thing's own 'state' entry; UNKNOWN); the empty
+    set if the call is not a hand-on of V.  Own methods are followed."""
+    if _is_base_advance(call):
+        thing = kwarg(call, 'things', 0)
+        if not _derived(f, thing, V):
+            return set()
+        e = kwarg(call, 'state', 1)
+        v = _eval_state(prog, K, f, e, env)
+        if v is UNKNOWN and isinstance(e, ast.Name) and \
+                not (env and e.id in env):
+            # a local: every constant it is bound to in this function
+            vals = [prog.fold(f.module, n.value, K) for n in walk(f.node)
+                    if isinstance(n, ast.Assign) and
+                    any(e.id in stores_in_target(t) for t in n.targets)]
+            plain = all(isinstance(t, ast.Name) for n in walk(f.node)
+                        if isinstance(n, ast.Assign) for t in n.targets
+                        if e.id in stores_in_target(t))
+            n_store = sum(1 for n in walk(f.node) if isinstance(n, ast.Name)
+                          and n.id == e.id and
+                          isinstance(n.ctx, (ast.Store, ast.Del)))
+            if vals and plain and e.id not in f.params and \
+                    n_store == len(vals):
+                return set(vals)
+        return {v}
+    r = _callee_of(prog, K, f, call, V)
+    if r is None:
+        return set()
+    callee, Vc, bound, explicit = r
+    if depth >= 3:
+        raise AnalysisError('UNRECOGNISED-IDIOM %s: hand-on helpers nested '
+                            'deeper than 3 at `%s`' % (f.where,
+                                                       short(call, 50)))
+    env_c = {}
+    for p, x in bound.items():
+        if p in Vc:
+            continue
+        env_c[p] = _eval_state(prog, K, f if p in explicit else callee, x,
+                               env if p in explicit else None)
+    out = set()
+    for cc in calls_in(callee.node):
+        out |= _handoffs(prog, K, callee, cc, Vc, env_c, depth + 1)
+    return out
+
+
+def _is_exc_store(t, V):
+    return isinstance(t, ast.Subscript) and \
+        isinstance(t.slice, ast.Constant) and t.slice.value == 'exception' \
+        and root_name(t) in V
+
+
+def _records(prog, K, f, a, V, depth=0):
+    """statement `a` records the exception on one of V (directly or in an own
+    helper method)"""
+    if isinstance(a, ast.Assign) and any(_is_exc_store(t, V)
+                                         for t in a.targets):
+        return True
+    if isinstance(a, ast.stmt) and not isinstance(a, (ast.Expr, ast.Assign)):
+        return False
+    for c in calls_in(a):
+        if isinstance(c.func, ast.Attribute) and c.func.attr == 'update' and \
+                root_name(c.func.value) in V and \
+                isinstance(c.func.value, ast.Name) and c.args and \
+                isinstance(c.args[0], ast.Dict) and any(
+                    isinstance(k, ast.Constant) and k.value == 'exception'
+                    for k in c.args[0].keys):
+            return True
+        if depth >= 3:
+            continue
+        r = _callee_of(prog, K, f, c, V)
+        if r is None:
+            continue
+        callee, Vc = r[0], r[1]
+        for s in walk(callee.node):
+            if isinstance(s, ast.stmt) and _records(prog, K, callee, s, Vc,
+                                                    depth + 1):
+                return True
+    return False
+
+
+def _collect_target(a, V):
+    """local container (root name) into which statement `a` puts one of V"""
+    out = []
+    for c in calls_in(a) if not isinstance(a, ast.expr) else []:
+        if isinstance(c.func, ast.Attribute) and c.func.attr in _COLLECT \
+                and any(_carries(x, V) for x in c.args):
+            r = root_name(c.func.value)
+            if r and r not in ('self', 'cls'):
+                out.append(r)
+    if isinstance(a, ast.AugAssign) and isinstance(a.op, ast.Add) and \
+            _carries(a.value, V):
+        r = root_name(a.target)
+        if r and r not in ('self', 'cls'):
+            out.append(r)
+    if isinstance(a, ast.Assign) and isinstance(a.value, ast.BinOp) and \
+            isinstance(a.value.op, ast.Add) and (
+                _carries(a.value.right, V) or _carries(a.value.left, V)):
+        for t in a.targets:
+            r = root_name(t)
+            if r and r not in ('self', 'cls'):
+                out.append(r)
+    return out
+
+
+def _resolve_names(g, expr, at, depth=3):
+    """copy of expr in which local names with exactly one reaching plain
+    assignment are replaced by the assigned expression"""
+    import copy
+    from ..flow import reaching_defs
+
+    class T(ast.NodeTransformer):
+        def visit_Name(self, n):
+            if not isinstance(n.ctx, ast.Load) or depth <= 0:
+                return n
+            defs = reaching_defs(g, n.id, at)
+            if len(defs) != 1 or defs[0][1] is None:
+                return n
+            d, v = defs[0]
+            if not (d.kind == 'stmt' and isinstance(d.ast, ast.Assign) and
+                    len(d.ast.targets) == 1 and
+                    isinstance(d.ast.targets[0], ast.Name)):
+                return n
+            return _resolve_names(g, v, d.id, depth - 1)
+    return T().visit(copy.deepcopy(expr))
+
+
+def _outcome_subject(e, V):
+    """e reads the recorded outcome of one of V: t['target_state'] or
+    t.get('target_state')"""
+    if isinstance(e, ast.Subscript) and isinstance(e.slice, ast.Constant) and \
+            e.slice.value == 'target_state' and \
+            isinstance(e.value, ast.Name) and e.value.id in V:
+        return True
+    if isinstance(e, ast.Call) and isinstance(e.func, ast.Attribute) and \
+            e.func.attr == 'get' and isinstance(e.func.value, ast.Name) and \
+            e.func.value.id in V and len(e.args) == 1 and \
+            isinstance(e.args[0], ast.Constant) and \
+            e.args[0].value == 'target_state':
+        return True
+    return False
+
+
+def _mentions_outcome(e, V):
+    return any(isinstance(x, ast.Constant) and x.value in _OUTCOME_KEYS
+               for x in ast.walk(e)) and bool(_names(e) & set(V))
+
+
+def _not_done_guard(prog, K, f, g, nid, start, V, done):
+    """True: the node is control dependent (inside the handler) on the task's
+    own outcome being something else than DONE; False: it does not depend on
+    the outcome at all; AnalysisError: depends on it in an unknown way"""
+    from ..flow import const_compare
+    okay = False
+    for tid, lab in guards(g, nid, start=start):
+        atom = _resolve_names(g, g.nodes[tid].ast, tid)
+        if not _mentions_outcome(atom, V):
+            continue
+        cc = None
+        if isinstance(atom, ast.Compare) and len(atom.ops) == 1:
+            l, r = atom.left, atom.comparators[0]
+            if _outcome_subject(l, V) or _outcome_subject(r, V):
+                cc = const_compare(prog, f.module, atom, K)
+        if cc is None:
+            raise AnalysisError('UNRECOGNISED-IDIOM %s: guard `%s` on the '
+                                'outcome of the task inside an error handler'
+                                % (f.where, short(g.nodes[tid].ast, 60)))
+        subj, op, vals = cc
+        if lab == 'F':
+            op = 'in' if op == 'notin' else 'notin'
+        if (op == 'in' and done not in vals and None not in vals) or \
+                (op == 'notin' and done in vals):
+            okay = True
+    return okay
+
+
+def _handler_region(g, h):
+    ids = {id(x) for s in h.ast.body for x in ast.walk(s)}
+    return {n.id for n in g.nodes if n.ast is not None and id(n.ast) in ids}
+
+
+def _thing_vars(prog, g, f, h):
+    """candidate names for 'the thing this handler is about': targets of the
+    enclosing for loops and the parameters of the method"""
+    out = []
+    for hid in reversed(h.loops):                     # innermost first
+        hn = g.nodes[hid]
+        if hn.kind == 'for':
+            out += stores_in_target(hn.ast.target)
+    out += [p for p in f.params if p not in ('self', 'cls')]
+    seen = []
+    for x in out:
+        if x not in seen:
+            seen.append(x)
+    return seen
+
+
+def handler_events(prog, K, f, g, h, tv, failed):
+    """{node id: [(kind, states, call)]} for the nodes of the handler body,
+    kind in 'failed' / 'other'"""
+    V = {tv}
+    region = _handler_region(g, h)
+    smap = I.stmt_node_map(g)
+    ev = {}
+    for nid in sorted(region):
+        n = g.nodes[nid]
+        if n.kind in ('for', 'with', 'test'):
+            calls = I.stmt_calls(n) if n.kind != 'test' else calls_in(n.ast)
+            a = None
+        elif n.kind == 'stmt':
+            calls = calls_in(n.ast)
+            a = n.ast
+        else:
+            continue
+        for c in calls:
+            H = _handoffs(prog, K, f, c, V)
+            if H:
+                ev.setdefault(nid, []).append(_classify(f, c, H, failed))
+        if a is None:
+            continue
+        for lst in _collect_target(a, V):
+            H = set()
+            cons = None
+            for cc in calls_in(f.node):
+                hs = _handoffs(prog, K, f, cc, {lst})
+                if not hs:
+                    continue
+                cn = smap.get(id(cc))
+                if cn is None or cn.id in region or \
+                        cn.id not in g.reachable(nid):
+                    continue
+                H |= hs
+                cons = cons or cc
+            if H:
+                k, st, _ = _classify(f, cons, H, failed)
+                ev.setdefault(nid, []).append(
+                    ('failed-later' if k == 'failed' else k, st, cons))
+    return region, ev
+
+
+def _classify(f, call, H, failed):
+    if any(h is UNKNOWN for h in H):
+        raise AnalysisError('UNRECOGNISED-IDIOM %s: state of the hand-on `%s` '
+                            'inside an error handler is not a constant'
+                            % (f.where, short(call, 60)))
+    if H == {failed}:
+        return ('failed', H, call)
+    if failed in H:
+        raise AnalysisError('UNRECOGNISED-IDIOM %s: `%s` hands on as FAILED '
+                            'and as %s' % (f.where, short(call, 60),
+                                           sorted(map(str, H - {failed}))))
+    return ('other', H, call)
+
+
+def _catch_all(h):
+    if h.type is None:
+        return True
+    ts = h.type.elts if isinstance(h.type, ast.Tuple) else [h.type]
+    return any(unparse(t).split('.')[-1] in ('Exception', 'BaseException')
+               for t in ts)
+
+
+def r05_7(prog, rep, rid='R05.7'):
+    rep.rule(rid, 'an `except` handler that hands the thing of the iteration '
+             'on does so as FAILED on every path that does not re-raise (a '
+             'hand-on to a non-final state only where the task\'s own outcome '
+             'is already not DONE), with the exception recorded first',
+             minimum=16)
+    failed = prog.const('states.py', 'FAILED')
+    done = prog.const('states.py', 'DONE')
+    final = set(prog.const('states.py', 'FINAL'))
+    comp = prog.cls(*COMP)
+    n_handlers = 0
+    for K, f in sorted(all_methods(prog), key=lambda x: x[1].where):
+        if comp not in prog.mro(K) or f.module.rel == 'utils/component.py' \
+                or f.module.rel.startswith('pmgr/'):     # pilots, not tasks
+            continue
+        if not any(isinstance(x, ast.ExceptHandler) for x in walk(f.node)):
+            continue
+        g = cfg_of(f)
+        for h in g.nodes:
+            if h.kind != 'handler' or not _catch_all(h.ast):
+                # a handler for one named exception type may deal with an
+                # expected condition, not with an error
+                continue
+            for tv in _thing_vars(prog, g, f, h):
+                region, ev = handler_events(prog, K, f, g, h, tv, failed)
+                if not ev:
+                    continue
+                n_handlers += 1
+                rep.saw(f)
+                _check_handler(prog, rep, rid, K, f, g, h, tv, region, ev,
+                               failed, done, final)
+                break
+    rep.stat('failure_handlers', n_handlers)
+
+
+def _check_handler(prog, rep, rid, K, f, g, h, tv, region, ev, failed, done,
+                   final):
+    V = {tv}
+    label = '%s handler(%s)' % (f.qual, unparse(h.ast.type) if h.ast.type
+                                else 'bare')
+    rec_nodes = {nid for nid in region if g.nodes[nid].kind == 'stmt' and
+                 _records(prog, K, f, g.nodes[nid].ast, V)}
+    # (a) hand-ons to something else than FAILED
+    soft = {}
+    for nid, evs in ev.items():
+        for kind, H, call in evs:
+            if kind != 'other':
+                continue
+            at = nid
+            nonfinal = all(s is not None and s not in final for s in H)
+            okay = nonfinal and _not_done_guard(prog, K, f, g, at, h.id, V,
+                                                done)
+            soft[nid] = okay
+            sts = ', '.join(sorted(str(s) for s in H))
+            rep.check(okay, rid, f, '%s: `%s` (-> %s) only for a task whose '
+                      'own outcome is not DONE' % (label, short(call, 40), sts),
+                      construct=call, message='%s: the error handler hands '
+                      '`%s` on by `%s` in state %s instead of failing it%s: '
+                      'the error that was just caught is swallowed, a task '
+                      'whose process exited with 0 goes on with target_state '
+                      'DONE and ends DONE although a step handling it raised'
+                      % (label, tv, short(call, 70), sts,
+                         '' if not nonfinal else ', and no guard of that '
+                         'hand-on tests that the task\'s own target_state is '
+                         'already not DONE'),
+                      loc=f.loc(g.nodes[nid].ast),
+                      history='a task with exit code 0 for which the guarded '
+                      'work raises (e.g. stage_on_error=True and an output '
+                      'file to LINK/COPY/MOVE that does not exist): the '
+                      'application sees DONE, exception None')
+
+    # (b), (c): all paths
+    def transfer(node, edge, st):
+        if edge.label == 'exc':
+            return None
+        fl, rec, unrec, later = st
+        if node.id in rec_nodes:
+            rec = True
+        for kind, H, call in ev.get(node.id, ()):
+            if kind == 'failed':
+                if not rec:
+                    unrec = True
+                fl = True
+            elif kind == 'failed-later':
+                # collected; failed by the consumer of the list after the
+                # handler: the record may follow anywhere in the handler
+                later = True
+                fl = True
+            elif fl is False:
+                fl = 'handed-on'        # judged by (a)
+        return (fl, rec, unrec, later)
+
+    def stop(nid):
+        return nid in (g.exit.id, g.raise_.id) or (
+            g.nodes[nid].ast is not None and nid not in region)
+    ex = Exploration(g, h.id, (False, False, False, False), transfer,
+                     stop=stop,
+                     stop_edge=lambda e: e.back and e.dst not in region)
+    lost = [t for t in ex.terminals if t.node != g.raise_.id and
+            t.state[0] is False]
+    rep.check(not lost, rid, f, '%s: every path fails `%s`' % (label, tv),
+              construct='%s:%s:all-paths-failed' % (
+                  unparse(h.ast.type) if h.ast.type else 'bare', tv),
+              message='%s: a path through the error handler leaves without '
+              'handing `%s` on as FAILED [%s]: the task whose handling raised '
+              'is dropped here and never reaches a final state' % (
+                  label, tv, ' ; '.join(ex.literals(lost[0])) if lost else ''),
+              loc=f.loc(h.ast), path=ex.literals(lost[0]) if lost else None,
+              history='the guarded work raises for one task on that path: '
+              'the task stays in its current state forever, wait_tasks() '
+              'never returns')
+    unrec = [t for t in ex.terminals if t.node != g.raise_.id and (
+        t.state[2] or (t.state[3] and not t.state[1]))]
+    if rec_nodes:
+        rep.check(not unrec, rid, f, '%s: the exception is recorded on `%s` '
+                  'before it is failed, on every path' % (label, tv),
+                  construct='%s:%s:recorded' % (
+                      unparse(h.ast.type) if h.ast.type else 'bare', tv),
+                  message='%s: a path through the error handler hands `%s` on '
+                  'as FAILED before / without recording the exception on it '
+                  '[%s]: the application sees FAILED without explanation'
+                  % (label, tv, ' ; '.join(ex.literals(unrec[0]))
+                     if unrec else ''), loc=f.loc(h.ast),
+                  history='the guarded work raises on that path: '
+                  'task.exception is None')
+    else:
+        rep.info(rid, f, '%s fails `%s` without recording the exception on it '
+                 '(no path records it; not armed)' % (label, tv),
+                 f.loc(h.ast))
+
+
+# ------------------------------------------------------------------------------
+# R05.8  tasks parked until a piece of component state appears are released
+#        for every key for which that state is set
+#
+# A worker which, instead of handing a task on, parks it in `self.<pool>[k]`
+# because a test on `self.<state>[k]...` fails, relies on the site which makes
+# that test succeed to release the pool entry.  Structural necessary condition:
+# the method which stores the awaited state for the keys of a collection D
+# releases (reads and hands on) `self.<pool>[k]` for *every* element of D - the
+# releasing loop iterates D itself (or the keys of the pool), not a subset of
+# D selected by a condition which does not look at the pool.
+#
+_ELT = '__elt__'
+_WRAP = ('list', 'sorted', 'tuple', 'set', 'reversed', 'iter', 'ru.as_list',
+         'frozenset')
+
+
+def _self_chain(e):
+    """(attr, [key exprs]) of self.A[k1][k2] / self.A.get(k1, d).get(k2)"""
+    keys = []
+    while True:
+        if isinstance(e, ast.Subscript) and not isinstance(e.slice, ast.Slice):
+            keys.append(e.slice)
+            e = e.value
+        elif isinstance(e, ast.Call) and isinstance(e.func, ast.Attribute) \
+                and e.func.attr in ('get', 'pop', 'setdefault') and e.args:
+            keys.append(e.args[0])
+            e = e.func.value
+        else:
+            break
+    if isinstance(e, ast.Attribute) and isinstance(e.value, ast.Name) and \
+            e.value.id == 'self':
+        return e.attr, list(reversed(keys))
+    return None
+
+
+def _reads_attr(e, attr):
+    return any(isinstance(x, ast.Attribute) and x.attr == attr and
+               isinstance(x.value, ast.Name) and x.value.id == 'self'
+               for x in ast.walk(e))
+
+
+def _park_site(a):
+    """(pool attr, key expr, thing name) if statement `a` puts a plain name
+    into the keyed container self.<pool>[key]"""
+    for c in calls_in(a) if isinstance(a, ast.stmt) else []:
+        if isinstance(c.func, ast.Attribute) and c.func.attr in _COLLECT and \
+                c.args and isinstance(c.args[-1], ast.Name):
+            ch = _self_chain(c.func.value)
+            if ch and len(ch[1]) == 1:
+                return ch[0], ch[1][0], c.args[-1].id
+    tgt = val = None
+    if isinstance(a, ast.Assign) and len(a.targets) == 1 and \
+            isinstance(a.value, ast.BinOp) and isinstance(a.value.op, ast.Add):
+        tgt, val = a.targets[0], a.value.right
+    elif isinstance(a, ast.AugAssign) and isinstance(a.op, ast.Add):
+        tgt, val = a.target, a.value
+    if tgt is not None and isinstance(val, ast.List) and len(val.elts) == 1 \
+            and isinstance(val.elts[0], ast.Name):
+        ch = _self_chain(tgt)
+        if ch and len(ch[1]) == 1:
+            return ch[0], ch[1][0], val.elts[0].id
+    return None
+
+
+def _falsy_const_expr(v):
+    return isinstance(v, ast.Constant) and not v.value
+
+
+def _awaited(atom, lab):
+    """(state attr, constant key tail) if the branch (atom, lab) is taken when
+    self.<attr>[k]<tail> is missing / falsy"""
+    ch = _self_chain(atom)
+    if ch and ch[1] and lab == 'F':
+        tail = []
+        for k in reversed(ch[1][1:]):
+            if not isinstance(k, ast.Constant):
+                return None
+            tail.insert(0, k.value)
+        return ch[0], tuple(tail)
+    if isinstance(atom, ast.Compare) and len(atom.ops) == 1:
+        ch = _self_chain(atom.comparators[0])
+        if ch and not ch[1] and (
+                (isinstance(atom.ops[0], ast.In) and lab == 'F') or
+                (isinstance(atom.ops[0], ast.NotIn) and lab == 'T')):
+            return ch[0], ()
+    return None
+
+
+def parking_sites(prog):
+    """[(K, f, cfg node, pool, thing, (state attr, tail), atom text)]"""
+    comp = prog.cls(*COMP)
+    final = set(prog.const('states.py', 'FINAL'))
+    out = []
+    seen = set()
+    for K, f in sorted(all_methods(prog), key=lambda x: x[1].where):
+        if comp not in prog.mro(K) or f.module.rel == 'utils/component.py' \
+                or id(f.node) in seen:
+            continue
+        seen.add(id(f.node))
+        if not any(isinstance(x, ast.Attribute) and x.attr in _COLLECT
+                   for x in walk(f.node)) and not any(
+                       isinstance(x, ast.AugAssign) for x in walk(f.node)):
+            continue
+        g = None
+        for s in walk(f.node):
+            if not isinstance(s, (ast.Expr, ast.Assign, ast.AugAssign)):
+                continue
+            ps = _park_site(s)
+            if ps is None:
+                continue
+            pool, key, thing = ps
+            g = g or cfg_of(f)
+            smap = I.stmt_node_map(g)
+            pn = smap.get(id(s))
+            if pn is None:
+                continue
+            # the alternative: the same thing handed on to a non-final state
+            alts = []
+            for c in calls_in(f.node):
+                if not (_is_base_advance(c) or I.is_handon(c)):
+                    continue
+                th = I.handon_thing(c)
+                if not _carries(th, {thing}):
+                    continue
+                H = _handoffs(prog, K, f, c, {thing})
+                if H and all(h is not UNKNOWN and h is not None and
+                             h not in final for h in H) and id(c) in smap:
+                    alts.append(smap[id(c)])
+            if not alts:
+                continue
+            # what the hand-on requires and the parking branch lacks: the
+            # task waits until all of it holds; of several tests on one
+            # attribute the most specific one (longest constant key path) is
+            # the one whose store completes the condition
+            pg = set(guards(g, pn.id))
+            for an in alts:
+                found = {}
+                for tid, lab in guards(g, an.id):
+                    if (tid, lab) in pg:
+                        continue
+                    atom = _resolve_names(g, g.nodes[tid].ast, tid)
+                    aw = _awaited(atom, 'T' if lab == 'F' else 'F')
+                    if aw is None:
+                        continue
+                    old = found.get(aw[0])
+                    if old is None or len(aw[1]) > len(old[0][1]):
+                        found[aw[0]] = (aw, unparse(atom))
+                if len(found) > 1:
+                    raise AnalysisError(
+                        'UNRECOGNISED-IDIOM %s: `%s` is parked in self.%s '
+                        'until several pieces of state appear (%s)'
+                        % (f.where, thing, pool, sorted(found)))
+                for aw, text in found.values():
+                    out.append((K, f, pn, pool, thing, aw, text))
+    # one entry per (function, pool, awaited state)
+    uniq = {}
+    for r in out:
+        uniq.setdefault((id(r[1].node), r[3], r[5]), r)
+    return list(uniq.values())
+
+
+def enabling_stores(prog, K, state, tail):
+    """[(class, f, stmt, key expr)]: stores which set self.<state>[k]<tail>
+    to something that is not a falsy constant"""
+    out = []
+    seen = set()
+    fam = list(prog.mro(K)) + [c for c in prog.subclasses(K)]
+    for C in fam:
+        for mname, f in sorted(C.methods.items()):
+            if id(f.node) in seen:
+                continue
+            seen.add(id(f.node))
+            for s in walk(f.node):
+                if not isinstance(s, ast.Assign):
+                    continue
+                for t in s.targets:
+                    ch = _self_chain(t)
+                    if ch is None and isinstance(t, ast.Subscript) and \
+                            isinstance(root_name(t), str) and \
+                            _reads_attr(f.node, state):
+                        # entry = self.<state>[k]; entry[<tail>] = v
+                        g = cfg_of(f)
+                        sn = I.stmt_node_map(g).get(id(s))
+                        if sn is not None:
+                            ch = _self_chain(ast.Subscript(
+                                value=_resolve_names(g, t.value, sn.id),
+                                slice=t.slice, ctx=ast.Load()))
+                    if not ch or ch[0] != state or not ch[1] or \
+                            not isinstance(t, ast.Subscript):
+                        continue
+                    keys = ch[1]
+                    tl = tuple(k.value if isinstance(k, ast.Constant) else
+                               None for k in keys[1:])
+                    if tl == tail and not _falsy_const_expr(s.value):
+                        if not tail and isinstance(keys[0], ast.Constant):
+                            continue
+                        out.append((C, f, s, keys[0]))
+                    elif len(keys) == 1 and len(tail) == 1 and \
+                            isinstance(s.value, ast.Dict):
+                        for k, v in zip(s.value.keys, s.value.values):
+                            if isinstance(k, ast.Constant) and \
+                                    k.value == tail[0] and \
+                                    not _falsy_const_expr(v):
+                                out.append((C, f, s, keys[0]))
+            # self.<state>[k].update({<tail>: v}) / .update(<tail>=v)
+            for c in calls_in(f.node) if len(tail) == 1 else []:
+                if not (isinstance(c.func, ast.Attribute) and
+                        c.func.attr == 'update'):
+                    continue
+                ch = _self_chain(c.func.value)
+                if ch is None and isinstance(c.func.value, ast.Name) and \
+                        _reads_attr(f.node, state):
+                    g = cfg_of(f)
+                    sn = I.stmt_node_map(g).get(id(c))
+                    if sn is not None:
+                        ch = _self_chain(_resolve_names(g, c.func.value,
+                                                        sn.id))
+                if not ch or ch[0] != state or len(ch[1]) != 1:
+                    continue
+                vals = [k.value for k in c.keywords if k.arg == tail[0]]
+                if c.args and isinstance(c.args[0], ast.Dict):
+                    vals += [v for k, v in zip(c.args[0].keys,
+                                               c.args[0].values)
+                             if isinstance(k, ast.Constant) and
+                             k.value == tail[0]]
+                if any(not _falsy_const_expr(v) for v in vals):
+                    st = I.enclosing_stmt_node(cfg_of(f), c)
+                    if st is not None and isinstance(st.ast, ast.stmt):
+                        out.append((C, f, st.ast, ch[1][0]))
+    return out
+
+
+def _strip_wrappers(e):
+    while True:
+        if isinstance(e, ast.Call) and dotted(e.func) in _WRAP and \
+                len(e.args) == 1:
+            e = e.args[0]
+        elif isinstance(e, ast.Subscript) and isinstance(e.slice, ast.Slice) \
+                and e.slice.lower is None and e.slice.upper is None:
+            e = e.value
+        elif isinstance(e, ast.Call) and isinstance(e.func, ast.Attribute) \
+                and e.func.attr == 'copy' and not e.args:
+            e = e.func.value
+        else:
+            return e
+
+
+def _subst(expr, name, repl):
+    import copy
+
+    class T(ast.NodeTransformer):
+        def visit_Name(self, n):
+            if n.id == name and isinstance(n.ctx, ast.Load):
+                return copy.deepcopy(repl)
+            return n
+    return T().visit(copy.deepcopy(expr))
+
+
+class _Domain:
+    """what a loop iterates: elements `elt` (an expression over the name _ELT)
+    for each _ELT in the collection `base` (resolved source text, or 'POOL'
+    for the keys of the pool itself), restricted by `filters`
+    [(atom ast, label, cfg)]"""
+
+    def __init__(self, base, elt=None, filters=None):
+        self.base = base
+        self.elt = elt if elt is not None else ast.Name(id=_ELT,
+                                                        ctx=ast.Load())
+        self.filters = filters or []
+
+
+def _domain(f, g, e, at, pool, depth=0):
+    from ..flow import reaching_defs
+    if depth > 4:
+        raise AnalysisError('UNRECOGNISED-IDIOM %s: iteration domain nested '
+                            'too deeply' % f.where)
+    e = _strip_wrappers(e)
+    # the pool itself
+    x = e
+    if isinstance(x, ast.Call) and isinstance(x.func, ast.Attribute) and \
+            x.func.attr in ('keys', 'items') and not x.args:
+        x = _strip_wrappers(x.func.value)
+    ch = _self_chain(x)
+    if ch and ch[0] == pool and not ch[1]:
+        return _Domain('POOL')
+    if isinstance(e, (ast.ListComp, ast.SetComp, ast.GeneratorExp,
+                      ast.DictComp)):
+        if len(e.generators) != 1 or \
+                not isinstance(e.generators[0].target, ast.Name):
+            raise AnalysisError('UNRECOGNISED-IDIOM %s: comprehension `%s`'
+                                % (f.where, short(e, 50)))
+        gen = e.generators[0]
+        inner = _domain(f, g, gen.iter, at, pool, depth + 1)
+        if inner.base == 'POOL':
+            return inner
+        elt = _subst(_resolve_names(g, e.key if isinstance(e, ast.DictComp)
+                                    else e.elt, at), gen.target.id, inner.elt)
+        fl = list(inner.filters)
+        for c in gen.ifs:
+            fl.append((_subst(c, gen.target.id, inner.elt), 'T'))
+        return _Domain(inner.base, elt, fl)
+    if isinstance(e, ast.Name):
+        defs = reaching_defs(g, e.id, at)
+        if len(defs) == 1 and defs[0][1] is not None and \
+                defs[0][0].kind == 'stmt' and \
+                isinstance(defs[0][0].ast, ast.Assign) and \
+                len(defs[0][0].ast.targets) == 1 and \
+                isinstance(defs[0][0].ast.targets[0], ast.Name):
+            d, v = defs[0]
+            if _is_empty_ctor(v):
+                return _built_list(f, g, e.id, d, pool, depth)
+            return _domain(f, g, v, d.id, pool, depth + 1)
+        return _Domain(unparse(e))
+    return _Domain(unparse(_resolve_names(g, e, at)))
+
+
+def _is_empty_ctor(v):
+    if isinstance(v, (ast.List, ast.Dict, ast.Set, ast.Tuple)):
+        return not (getattr(v, 'elts', None) or getattr(v, 'keys', None))
+    return isinstance(v, ast.Call) and dotted(v.func) in ('list', 'set') and \
+        not v.args and not v.keywords
+
+
+def _built_list(f, g, name, dnode, pool, depth):
+    """domain of a local list which starts empty and is filled by appends in
+    one loop"""
+    adds = []
+    for n in g.nodes:
+        if n.kind != 'stmt':
+            continue
+        a = n.ast
+        if isinstance(a, ast.Expr) and isinstance(a.value, ast.Call) and \
+                isinstance(a.value.func, ast.Attribute) and \
+                a.value.func.attr in ('append', 'add') and \
+                isinstance(a.value.func.value, ast.Name) and \
+                a.value.func.value.id == name and len(a.value.args) == 1:
+            adds.append((n, a.value.args[0]))
+        elif isinstance(a, ast.AugAssign) and isinstance(a.target, ast.Name) \
+                and a.target.id == name and isinstance(a.value, ast.List) and \
+                len(a.value.elts) == 1:
+            adds.append((n, a.value.elts[0]))
+        elif name in {x.id for x in walk(a) if isinstance(x, ast.Name) and
+                      isinstance(x.ctx, ast.Store)} and n is not dnode:
+            raise AnalysisError('UNRECOGNISED-IDIOM %s: list `%s` is rebound'
+                                % (f.where, name))
+    heads = {n.loops[-1] if n.loops else None for n, _ in adds}
+    if not adds or len(heads) != 1 or None in heads:
+        raise AnalysisError('UNRECOGNISED-IDIOM %s: how the list `%s` is '
+                            'filled' % (f.where, name))
+    H = g.nodes[heads.pop()]
+    if H.kind != 'for' or not isinstance(H.ast.target, ast.Name) or \
+            H.id in dnode.loops:
+        raise AnalysisError('UNRECOGNISED-IDIOM %s: loop that fills `%s`'
+                            % (f.where, name))
+    inner = _domain(f, g, H.ast.iter, H.id, pool, depth + 1)
+    if inner.base == 'POOL':
+        return inner
+    elts = {unparse(_subst(_resolve_names(g, x, n.id), H.ast.target.id,
+                           inner.elt)) for n, x in adds}
+    if len(elts) != 1:
+        raise AnalysisError('UNRECOGNISED-IDIOM %s: elements of `%s`'
+                            % (f.where, name))
+    n0, x0 = adds[0]
+    elt = _subst(_resolve_names(g, x0, n0.id), H.ast.target.id, inner.elt)
+    # is an element added on every iteration?
+    start = loop_slice(g, H.id)[0]
+    addn = {n.id for n, _ in adds}
+    r = g.reachable(start, skip_nodes=addn,
+                    labels={'next', 'T', 'F', 'iter', 'done'})
+    r &= g.loop_body[H.id] | {start}
+    skipping = any(e.dst == H.id and e.label != 'exc' for nid in r
+                   for e in g.succ[nid] if nid not in addn)
+    fl = list(inner.filters)
+    if skipping:
+        cond = []
+        for n, _ in adds:
+            for tid, lab in guards(g, n.id, start=start):
+                cond.append((_subst(_resolve_names(g, g.nodes[tid].ast, tid),
+                                    H.ast.target.id, inner.elt), lab))
+        if not cond:
+            raise AnalysisError('UNRECOGNISED-IDIOM %s: condition under which '
+                                '`%s` is filled' % (f.where, name))
+        fl += cond
+    return _Domain(inner.base, elt, fl)
+
+
+def _body_guards(g, node, L, elt):
+    """[(atom, label)]: the branch conditions inside one iteration of the for
+    loop L under which `node` is reached, the loop variable replaced by the
+    element expression"""
+    if L is None:
+        return []
+    start = loop_slice(g, L.id)[0]
+    out = []
+    for tid, lab in guards(g, node.id, start=start):
+        if tid not in g.loop_body[L.id]:
+            continue
+        a = _resolve_names(g, g.nodes[tid].ast, tid)
+        if isinstance(L.ast.target, ast.Name):
+            a = _subst(a, L.ast.target.id, elt)
+        out.append((a, lab))
+    return out
+
+
+def _pool_loop_ok(ef, g, readn, RL, edom, pool):
+    """a loop over the keys of the pool itself releases every parked key; a
+    selection inside its body may only look at the pool or at membership in
+    the collection whose keys were set"""
+    for a, lab in _body_guards(g, readn, RL, ast.Name(id=_ELT,
+                                                      ctx=ast.Load())):
+        if _reads_attr(a, pool):
+            continue
+        if isinstance(a, ast.Compare) and len(a.ops) == 1 and \
+                isinstance(a.ops[0], (ast.In, ast.NotIn)) and \
+                edom is not None:
+            d = _domain(ef, g, a.comparators[0], readn.id, pool)
+            if d.base == edom.base and not d.filters:
+                continue
+        raise AnalysisError('UNRECOGNISED-IDIOM %s: selection `%s` inside the '
+                            'loop over self.%s' % (ef.where, short(a, 50),
+                                                   pool))
+    return True
+
+
+def _key_shape(g, key, at, loop, dom):
+    """the key expression at cfg node `at` in terms of one element of the
+    domain's base collection"""
+    e = _resolve_names(g, key, at)
+    if loop is not None:
+        t = loop.ast.target
+        if not isinstance(t, ast.Name):
+            return None
+        e = _subst(e, t.id, dom.elt)
+    return unparse(e)
+
+
+def _filter_verdict(f, atom, lab, pool):
+    """'pool': the filter keeps exactly the keys that have a pool entry;
+    'subset': the filter does not look at the pool"""
+    if not _reads_attr(atom, pool):
+        return 'subset'
+    ch = _self_chain(atom)
+    if ch and ch[0] == pool and len(ch[1]) == 1 and lab == 'T':
+        return 'pool'
+    if isinstance(atom, ast.Compare) and len(atom.ops) == 1:
+        ch = _self_chain(_strip_wrappers(atom.comparators[0]))
+        if ch and ch[0] == pool and not ch[1] and (
+                (isinstance(atom.ops[0], ast.In) and lab == 'T') or
+                (isinstance(atom.ops[0], ast.NotIn) and lab == 'F')):
+            return 'pool'
+    raise AnalysisError('UNRECOGNISED-IDIOM %s: selection `%s` of the keys for '
+                        'which self.%s is released' % (f.where,
+                                                       short(atom, 60), pool))
+
+
+def _pool_reads(node_ast, pool):
+    """key expressions of reads self.<pool>[k] / .get(k) / .pop(k)"""
+    out = []
+    for x in ast.walk(node_ast):
+        if isinstance(x, (ast.Subscript, ast.Call)):
+            if isinstance(x, ast.Subscript) and \
+                    not isinstance(x.ctx, ast.Load):
+                continue
+            ch = _self_chain(x)
+            if ch and ch[0] == pool and len(ch[1]) == 1:
+                if isinstance(x, ast.Call) and x.func.attr == 'setdefault':
+                    continue
+                out.append(ch[1][0])
+    return out
+
+
+def release_sites(prog, K, f, g, pool, depth=0):
+    """[(cfg node of the hand-on in f, innermost for loop or None, key expr,
+    cfg node of the pool read, cfg for key resolution, sub)]: hand-ons in f of
+    things read from self.<pool>[key].  A release inside an own method called
+    from f is reported at the call, sub=(callee, its sites)."""
+    smap = I.stmt_node_map(g)
+    dep = _deps(f)
+    loc = 'self.' + pool
+    out = []
+    reads = []
+    aliases = {t.id for s in walk(f.node) if isinstance(s, ast.Assign)
+               for t in s.targets if isinstance(t, ast.Name) and
+               (_self_chain(_strip_wrappers(s.value)) or ('', [0]))[0] == pool
+               and not _self_chain(_strip_wrappers(s.value))[1]}
+    for n in g.nodes:
+        if n.kind == 'stmt' and n.ast is not None:
+            a = n.ast
+            if aliases and _names(a) & aliases and not _reads_attr(a, pool):
+                a = _resolve_names(g, a, n.id)
+            for k in _pool_reads(a, pool):
+                reads.append((n, k))
+    for c in calls_in(f.node):
+        n = smap.get(id(c))
+        if n is None:
+            continue
+        if _is_base_advance(c) or I.is_handon(c):
+            th = I.handon_thing(c)
+            if th is None or loc not in dep.expr_depends(th):
+                continue
+            # the read that feeds it: in the same innermost loop
+            cands = [(rn, k) for rn, k in reads
+                     if (rn.loops[-1:] == n.loops[-1:]) and
+                     (rn.id == n.id or n.id in g.reachable(rn.id))]
+            if not cands:
+                raise AnalysisError('UNRECOGNISED-IDIOM %s: `%s` hands on '
+                                    'content of self.%s, but the keyed read '
+                                    'that feeds it was not found'
+                                    % (f.where, short(c, 50), pool))
+            rn, k = cands[0]
+            L = g.nodes[n.loops[-1]] if n.loops else None
+            out.append((n, L, k, rn, None))
+        elif depth == 0 and call_name(c).startswith('self.') and \
+                call_name(c).count('.') == 1:
+            callee = prog.resolve_call(f, c, K)
+            if callee is None or callee.node is f.node or \
+                    not _reads_attr(callee.node, pool):
+                continue
+            gc = cfg_of(callee)
+            sub = release_sites(prog, K, callee, gc, pool, depth + 1)
+            if sub:
+                L = g.nodes[n.loops[-1]] if n.loops else None
+                out.append((n, L, None, n, (callee, gc, sub, c)))
+    return out
+
+
+def r05_8(prog, rep, rid='R05.8'):
+    rep.rule(rid, 'where a worker parks tasks in self.<pool>[k] until '
+             'self.<state>[k] is set, the method that sets it releases the '
+             'pool entry of every key it sets (the releasing loop iterates '
+             'the same collection, not a subset chosen without looking at '
+             'the pool)', minimum=1)
+    sites = parking_sites(prog)
+    rep.stat('parking_sites', len(sites))
+    for K, pf, pn, pool, thing, (state, tail), atom in sites:
+        rep.saw(pf)
+        what = 'self.%s[k]%s' % (state, ''.join('[%r]' % t for t in tail))
+        ens = enabling_stores(prog, K, state, tail)
+        if not ens:
+            rep.info(rid, pf, '%s parks `%s` in self.%s until %s is set, but '
+                     'no store of it was found' % (pf.qual, thing, pool, what),
+                     pf.loc(pn.ast))
+            continue
+        for C, ef, es, ekey in ens:
+            rep.saw(ef)
+            _check_release(prog, rep, rid, C, ef, es, ekey, pf, pn, pool,
+                           thing, what, atom, state, tail)
+
+
+def _placeholder_sites(prog, C, state, tail, ef):
+    """methods (other than ef) which create self.<state>[k] with a falsy
+    <tail> entry"""
+    out = []
+    if len(tail) != 1:
+        return out
+    for K in list(prog.mro(C)) + list(prog.subclasses(C)):
+        for mname, f in sorted(K.methods.items()):
+            if f.node is ef.node:
+                continue
+            for s in walk(f.node):
+                if isinstance(s, ast.Assign) and isinstance(s.value, ast.Dict) \
+                        and any((_self_chain(t) or ('', []))[0] == state and
+                                len(_self_chain(t)[1]) == 1
+                                for t in s.targets
+                                if isinstance(t, ast.Subscript)):
+                    for k, v in zip(s.value.keys, s.value.values):
+                        if isinstance(k, ast.Constant) and k.value == tail[0] \
+                                and _falsy_const_expr(v) and \
+                                f.qual not in out:
+                            out.append(f.qual)
+    return out
+
+
+def _check_release(prog, rep, rid, C, ef, es, ekey, pf, pn, pool, thing, what,
+                   atom, what_state=None, what_tail=()):
+    g = cfg_of(ef)
+    smap = I.stmt_node_map(g)
+    en = smap.get(id(es))
+    if en is None:
+        raise AnalysisError('UNRECOGNISED-IDIOM %s: store `%s`'
+                            % (ef.where, short(es, 50)))
+    label = '%s: `%s`' % (ef.qual, short(es, 50))
+    parked = ('%s parks `%s` in self.%s[k] when `%s` is missing / empty'
+              % (pf.qual, thing, pool, atom))
+    ph = _placeholder_sites(prog, C, what_state, what_tail, ef)
+    hist = ('the entry for key p1 exists without it (%s), a task naming p1 '
+            'arrives and is parked in '
+            'self.%s[p1], then this method sets %s for p1 without releasing '
+            'self.%s[p1]: the task never leaves its scheduling state, '
+            'wait_tasks() blocks forever' % (
+                'created e.g. by ' + ', '.join(ph) if ph else
+                'e.g. created empty by another site', pool, what, pool))
+    rels = release_sites(prog, C, ef, g, pool)
+    # only releases that follow the store
+    rels = [r for r in rels if r[0].id in g.reachable(en.id) or
+            (en.loops and r[0].loops[-1:] == en.loops[-1:])]
+    if not rels:
+        reads_pool = _reads_attr(ef.node, pool) or any(
+            _reads_attr(cal.node, pool) for cal in (
+                prog.resolve_call(ef, c, C) for c in calls_in(ef.node)
+                if call_name(c).startswith('self.') and
+                call_name(c).count('.') == 1) if cal is not None and
+            cal.node is not ef.node)
+        if reads_pool:
+            raise AnalysisError('UNRECOGNISED-IDIOM %s: the method uses '
+                                'self.%s after `%s`, but no hand-on of its '
+                                'content was recognised' % (
+                                    ef.where, pool, short(es, 50)))
+        rep.bad(rid, ef, '%s:release-of-%s' % (short(es, 40), pool),
+                '%s sets %s, but the method never hands on the tasks parked '
+                'in self.%s for that key afterwards (%s): they are never '
+                'released' % (label, what, pool, parked), ef.loc(es),
+                history=hist)
+        return
+    EL = g.nodes[en.loops[-1]] if en.loops else None
+    if EL is not None and EL.kind != 'for':
+        raise AnalysisError('UNRECOGNISED-IDIOM %s: store inside a while loop'
+                            % ef.where)
+    edom0 = edom = None
+    if EL is not None:
+        edom0 = _domain(ef, g, EL.ast.iter, EL.id, pool)
+        edom = _Domain(edom0.base, edom0.elt, edom0.filters +
+                       _body_guards(g, en, EL, edom0.elt))
+    ekey_s = _key_shape(g, ekey, en.id, EL, edom)
+    problems = []
+    covered = False
+    for rn, RL, rkey, readn, sub in rels:
+        try:
+            v = _covers(prog, C, ef, g, en, EL, edom, edom0, ekey_s, rn, RL,
+                        rkey, readn, sub, pool)
+        except AnalysisError as e:
+            problems.append(('error', str(e)))
+            continue
+        if v is True:
+            # the release is reached on every normal path after the store
+            src = EL.id if EL is not None and RL is not EL else en.id
+            via = [RL.id if RL is not None and RL is not EL else rn.id]
+            if RL is EL or must_pass(g, src, g.exit.id, via, skip_exc=True) \
+                    or _leaves_by_done(g, EL, via):
+                covered = True
+            else:
+                problems.append(('skipped', 'the release `%s` is not reached '
+                                 'on every path after the store'
+                                 % short(rn.ast, 50)))
+        else:
+            problems.append(('subset', v))
+    if covered:
+        rep.ok(rid, ef, '%s: self.%s[k] is released for every key for which '
+               '%s is set' % (label, pool, what), ef.loc(es))
+        return
+    real = [p for p in problems if p[0] != 'error']
+    if not real:
+        raise AnalysisError(problems[0][1])
+    rep.bad(rid, ef, '%s:release-of-%s' % (short(es, 40), pool),
+            '%s sets %s for every element of `%s`, but %s.  %s; for a key '
+            'outside of that selection whose entry existed without %s the '
+            'parked tasks are never released' % (
+                label, what, short(EL.ast.iter, 40) if EL is not None
+                else 'its argument', '; '.join(p[1] for p in real), parked,
+                what), ef.loc(es), history=hist)
+
+
+def _leaves_by_done(g, EL, via):
+    """every normal path from the loop exit of EL to the function exit
+    passes `via`"""
+    if EL is None:
+        return False
+    after = [e.dst for e in g.succ[EL.id] if e.label == 'done']
+    r = g.reachable(after, skip_nodes=set(via),
+                    labels={'next', 'T', 'F', 'iter', 'done'})
+    return g.exit.id not in r
+
+
+def _covers(prog, C, ef, g, en, EL, edom, edom0, ekey_s, rn, RL, rkey, readn,
+            sub, pool):
+    """True, or a sentence saying for which subset the release happens"""
+    if sub is not None:
+        callee, gc, subsites, call = sub
+        b = _bind(callee, call)
+        if b is None:
+            raise AnalysisError('UNRECOGNISED-IDIOM %s: call `%s`'
+                                % (ef.where, short(call, 50)))
+        bound, explicit = b
+        res = []
+        for sn, SL, skey, sreadn, ssub in subsites:
+            if ssub is not None:
+                continue
+            if SL is not None:
+                # bulk helper: it loops over one of its parameters
+                sdom = _domain(callee, gc, SL.ast.iter, SL.id, pool)
+                if sdom.base == 'POOL':
+                    return _pool_loop_ok(callee, gc, sreadn, SL, None, pool)
+                if sdom.base not in explicit:
+                    raise AnalysisError('UNRECOGNISED-IDIOM %s: what `%s` '
+                                        'iterates' % (callee.where,
+                                                      short(SL.ast, 40)))
+                outer = _domain(ef, g, bound[sdom.base], rn.id, pool)
+                if outer.base == 'POOL':
+                    return True
+                dom = _Domain(outer.base,
+                              _subst(sdom.elt, _ELT, outer.elt),
+                              outer.filters + [
+                                  (_subst(a, _ELT, outer.elt), l)
+                                  for a, l in sdom.filters +
+                                  _body_guards(gc, sreadn, SL, sdom.elt)])
+                ks = _key_shape(gc, skey, sreadn.id, SL, dom)
+                res.append(_same(ef, edom, ekey_s, dom, ks, pool, EL, RL))
+            else:
+                # per-element helper called inside a loop of ef
+                k = _resolve_names(gc, skey, sreadn.id)
+                for p in explicit:
+                    k = _subst(k, p, _resolve_names(g, bound[p], rn.id))
+                if RL is None:
+                    res.append(True if EL is None and unparse(k) == ekey_s
+                               else 'the key differs')
+                    continue
+                dom = _domain(ef, g, RL.ast.iter, RL.id, pool)
+                if dom.base == 'POOL':
+                    return _pool_loop_ok(ef, g, rn, RL, edom, pool)
+                dom = _Domain(dom.base, dom.elt, dom.filters +
+                              _body_guards(g, rn, RL, dom.elt))
+                if not isinstance(RL.ast.target, ast.Name):
+                    raise AnalysisError('UNRECOGNISED-IDIOM %s: loop target'
+                                        % ef.where)
+                ks = unparse(_subst(k, RL.ast.target.id, dom.elt))
+                res.append(_same(ef, edom, ekey_s, dom, ks, pool, EL, RL))
+        if any(r is True for r in res):
+            return True
+        if not res:
+            raise AnalysisError('UNRECOGNISED-IDIOM %s: release in `%s`'
+                                % (ef.where, short(call, 50)))
+        return res[0]
+    if RL is None:
+        if EL is None and unparse(_resolve_names(g, rkey, readn.id)) == ekey_s:
+            return True
+        raise AnalysisError('UNRECOGNISED-IDIOM %s: release `%s` outside of a '
+                            'loop' % (ef.where, short(rn.ast, 50)))
+    if RL.kind != 'for':
+        raise AnalysisError('UNRECOGNISED-IDIOM %s: release in a while loop'
+                            % ef.where)
+    if RL is EL:
+        dom = edom0
+    else:
+        dom = _domain(ef, g, RL.ast.iter, RL.id, pool)
+    if dom.base == 'POOL':
+        return _pool_loop_ok(ef, g, readn, RL, edom, pool)
+    dom = _Domain(dom.base, dom.elt, dom.filters +
+                  _body_guards(g, readn, RL, dom.elt))
+    ks = _key_shape(g, rkey, readn.id, RL, dom)
+    return _same(ef, edom, ekey_s, dom, ks, pool, EL, RL)
+
+
+def _same(ef, edom, ekey_s, dom, ks, pool, EL, RL):
+    if edom is None:
+        raise AnalysisError('UNRECOGNISED-IDIOM %s: store outside of a loop, '
+                            'release inside' % ef.where)
+    if dom.base != edom.base:
+        raise AnalysisError('UNRECOGNISED-IDIOM %s: the store iterates `%s`, '
+                            'the release `%s`' % (ef.where, edom.base,
+                                                  dom.base))
+    if ks is None or ks != ekey_s:
+        raise AnalysisError('UNRECOGNISED-IDIOM %s: key of the store `%s`, '
+                            'of the release `%s`' % (ef.where, ekey_s, ks))
+    mine = {(unparse(a), l) for a, l in edom.filters}
+    extra = [(a, l) for a, l in dom.filters if (unparse(a), l) not in mine]
+    sub = [(a, l) for a, l in extra
+           if _filter_verdict(ef, a, l, pool) == 'subset']
+    if not sub:
+        return True
+    return ('the loop that releases the tasks parked in self.%s iterates `%s`'
+            ', which holds only the elements for which %s' % (
+                pool, short(RL.ast.iter, 40) if RL is not None else '?',
+                ' and '.join('`%s`' % unparse(a).replace(_ELT, '<elt>')
+                             if l == 'T' else '`not (%s)`' %
+                             unparse(a).replace(_ELT, '<elt>')
+                             for a, l in sub)))
+
+
+# ------------------------------------------------------------------------------
 #
 def run(prog, rep, tier):
     rep.decided = ('route table: every pushing hand-on to a non-final state '
@@ -862,7 +2188,12 @@ def run(prog, rep, tier):
         'failures per task, records the exception on that task and fails '
         'only that task; the client output stager hands each task on once; '
         'FAILED/CANCELED advances record target_state, are published and '
-        'never pushed, the agent hands the full task back.  Exactly-once '
+        'never pushed, the agent hands the full task back; a catch-all '
+        'handler that hands the thing of the iteration on fails it on every '
+        'path (non-final hand-on only for a task whose own outcome is not '
+        'DONE) and records the exception first; tasks parked in a keyed pool '
+        'until component state appears are released for every key for which '
+        'that state is set.  Exactly-once '
         'finishing in the executor is C07, Master._result_cb is R20.4.')
     rep.undecided = ('composition of the ten components under arbitrary '
         'message delivery orders; liveness of the pipeline as a whole.')
@@ -875,6 +2206,8 @@ def run(prog, rep, tier):
     rep.attempt(r05_4b, prog, rep)
     rep.attempt(r05_5, prog, rep)
     rep.attempt(r05_6, prog, rep)
+    rep.attempt(r05_7, prog, rep)
+    rep.attempt(r05_8, prog, rep)
     # exactly one final state when process exit and cancel coincide
     from .c07 import r07_2
     rep.attempt(r07_2, prog, rep, rid='R07.2')
@@ -958,6 +2291,34 @@ MUTATIONS = [
         (_EB, "                    if cancel_time:\n                        self._log.warning('task %s timed out after %.2f seconds',\n                                          task['uid'], now - cancel_time)\n                        self._prof.prof('task_timeout', uid=task['uid'])\n                        self.cancel_task(task=task)", "                    if True:\n                        self._prof.prof('task_timeout', uid=task['uid'])\n                        self.cancel_task(task=task)")]),
     dict(name='R07.2 cancel without ownership test (seed C05-a)', rules=('R07.2',), edits=[
         (_P, "            if tid not in self._tasks:\n                return\n            try:\n                del self._tasks[tid]\n            except KeyError:\n                pass\n\n        # task is still running", "            self._tasks.pop(tid, None)\n\n        # task is still running")]),
+    dict(name='R05.7 stage_on_error tasks skip the failure in the agent output stager (seed C05-c)', rules=('R05.7',), edits=[
+        (_AO, "                self._log.exception('staging error')\n                task['exception']        = repr(e)\n", "                self._log.exception('staging error')\n\n                if task['description'].get('stage_on_error'):\n                    self.advance(task, rps.TMGR_STAGING_OUTPUT_PENDING,\n                                       publish=True, push=True)\n                    continue\n\n                task['exception']        = repr(e)\n")]),
+    dict(name='R05.7 seed C05-c with hoisted flag and if/else', rules=('R05.7',), edits=[
+        (_AO, "                self._log.exception('staging error')\n                task['exception']        = repr(e)\n                task['exception_detail'] = '\\n'.join(ru.get_exception_trace())\n\n                self.advance(task, rps.FAILED)", "                self._log.exception('staging error')\n                best_effort = task['description'].get('stage_on_error')\n                next_state  = rps.TMGR_STAGING_OUTPUT_PENDING\n                if not best_effort:\n                    task['exception']        = repr(e)\n                    task['exception_detail'] = '\\n'.join(ru.get_exception_trace())\n                    self.advance(task, rps.FAILED)\n                else:\n                    self.advance(task, next_state, publish=True, push=True)")]),
+    dict(name='R05.7 stage_on_error guard with the wrong polarity of the outcome test', rules=('R05.7',), edits=[
+        (_AO, "                self._log.exception('staging error')\n                task['exception']        = repr(e)\n", "                self._log.exception('staging error')\n\n                if task['target_state'] == rps.DONE and \\\n                        task['description'].get('stage_on_error'):\n                    self.advance(task, rps.TMGR_STAGING_OUTPUT_PENDING,\n                                       publish=True, push=True)\n                    continue\n\n                task['exception']        = repr(e)\n")]),
+    dict(name='R05.7 stage_on_error tasks are dropped by the handler', rules=('R05.7',), edits=[
+        (_AO, "                self._log.exception('staging error')\n                task['exception']        = repr(e)\n", "                self._log.exception('staging error')\n                if task['description'].get('stage_on_error'):\n                    continue\n                task['exception']        = repr(e)\n")]),
+    dict(name='R05.7 executor sends a task that could not be launched to output staging', rules=('R05.7',), edits=[
+        (_P, "                self.publish(rpc.AGENT_UNSCHEDULE_PUBSUB, task)\n\n                self.advance_tasks(task, rps.FAILED, publish=True, push=False)\n\n\n    # --------------------------------------------------------------------------\n    #\n    def _handle_task(self, task):", "                self.publish(rpc.AGENT_UNSCHEDULE_PUBSUB, task)\n\n                # collect stdout / stderr of the launch attempt\n                self.advance_tasks(task, rps.AGENT_STAGING_OUTPUT_PENDING,\n                                   publish=True, push=True)\n\n\n    # --------------------------------------------------------------------------\n    #\n    def _handle_task(self, task):")]),
+    dict(name='R05.7 tmgr input stager forwards tasks whose staging failed', rules=('R05.7',), edits=[
+        (_TI, "                    task['exception_detail'] = '\\n'.join(ru.get_exception_trace())\n                    to_fail.append(task)\n", "                    task['exception_detail'] = '\\n'.join(ru.get_exception_trace())\n                    if task['description'].get('stage_on_error'):\n                        self._advance_tasks([task], pid)\n                    else:\n                        to_fail.append(task)\n")]),
+    dict(name='R05.7 agent input stager fails optional-staging tasks before recording the error', rules=('R05.7',), edits=[
+        (_AI, "                self._log.exception('staging error')\n                task['exception']        = repr(e)\n", "                self._log.exception('staging error')\n                if task['description'].get('stage_on_error'):\n                    self.advance(task, rps.FAILED)\n                    continue\n                task['exception']        = repr(e)\n")]),
+    dict(name='R05.8 early-bound tasks released only for pilots without an entry (seed C05-d)', rules=('R05.8',), edits=[
+        (_TS, "            with self._pilots_lock:\n\n                for pilot in pilots:\n\n                    pid = pilot['uid']\n\n                    if pid in self._pilots:\n                        if self._pilots[pid]['role'] == ADDED:\n                            raise ValueError('pilot already added (%s)' % pid)\n", "            with self._pilots_lock:\n\n                new_pilots = list()\n\n                for pilot in pilots:\n\n                    pid = pilot['uid']\n\n                    if pid in self._pilots:\n                        if self._pilots[pid]['role'] == ADDED:\n                            raise ValueError('pilot already added (%s)' % pid)\n"),
+        (_TS, "                                             'info'  : dict()\n                                            }\n\n                    self._pilots[pid]['role']  = ADDED\n", "                                             'info'  : dict()\n                                            }\n                        new_pilots.append(pilot)\n\n                    self._pilots[pid]['role']  = ADDED\n"),
+        (_TS, "                self._update_pilot_states(pilots)\n\n                for pilot in pilots:\n\n                    pid = pilot['uid']\n\n                    # if we have any early_bound tasks waiting for this pilots,\n                    # advance them now\n                    early_tasks = self._early.get(pid)\n                    if early_tasks:\n", "                self._update_pilot_states(pilots)\n\n                for pilot in new_pilots:\n\n                    pid = pilot['uid']\n\n                    # if we have any early_bound tasks waiting for this pilots,\n                    # advance them now\n                    early_tasks = self._early.get(pid)\n                    if early_tasks:\n")]),
+    dict(name='R05.8 early-bound tasks released only for pilots that are already active', rules=('R05.8',), edits=[
+        (_TS, "                self._update_pilot_states(pilots)\n\n                for pilot in pilots:\n\n                    pid = pilot['uid']\n\n                    # if we have any early_bound tasks waiting for this pilots,\n                    # advance them now\n                    early_tasks = self._early.get(pid)\n                    if early_tasks:\n", "                self._update_pilot_states(pilots)\n\n                usable = [p for p in pilots\n                            if self._pilots[p['uid']]['state'] == rps.PMGR_ACTIVE]\n                for pilot in usable:\n\n                    pid = pilot['uid']\n\n                    # if we have any early_bound tasks waiting for this pilots,\n                    # advance them now\n                    early_tasks = self._early.get(pid)\n                    if early_tasks:\n")]),
+    dict(name='R05.8 release skipped for pilots which were known before (guard in the loop body)', rules=('R05.8',), edits=[
+        (_TS, "            with self._pilots_lock:\n\n                for pilot in pilots:\n\n                    pid = pilot['uid']\n\n                    if pid in self._pilots:\n                        if self._pilots[pid]['role'] == ADDED:\n                            raise ValueError('pilot already added (%s)' % pid)\n", "            with self._pilots_lock:\n\n                known = set(self._pilots)\n\n                for pilot in pilots:\n\n                    pid = pilot['uid']\n\n                    if pid in self._pilots:\n                        if self._pilots[pid]['role'] == ADDED:\n                            raise ValueError('pilot already added (%s)' % pid)\n"),
+        (_TS, "                self._update_pilot_states(pilots)\n\n                for pilot in pilots:\n\n                    pid = pilot['uid']\n\n                    # if we have any early_bound tasks waiting for this pilots,\n                    # advance them now\n                    early_tasks = self._early.get(pid)\n                    if early_tasks:\n", "                self._update_pilot_states(pilots)\n\n                for pilot in pilots:\n\n                    pid = pilot['uid']\n                    if pid in known:\n                        continue\n\n                    # if we have any early_bound tasks waiting for this pilots,\n                    # advance them now\n                    early_tasks = self._early.get(pid)\n                    if early_tasks:\n")]),
+    dict(name='R05.8 add_pilots does not release the early-bound tasks', rules=('R05.8',), edits=[
+        (_TS, "                self._update_pilot_states(pilots)\n\n                for pilot in pilots:\n\n                    pid = pilot['uid']\n\n                    # if we have any early_bound tasks waiting for this pilots,\n                    # advance them now\n                    early_tasks = self._early.get(pid)\n                    if early_tasks:\n\n                        for task in early_tasks:\n                            self._assign_pilot(task, pilot)\n\n                        self.advance(early_tasks, rps.TMGR_STAGING_INPUT_PENDING,\n                                     publish=True, push=True)\n\n                        # these tasks are on their way now: forget them, or\n                        # a pilot which gets removed and added again would\n                        # receive them a second time\n                        del self._early[pid]\n", '                self._update_pilot_states(pilots)\n')]),
+    dict(name='R05.8 release moved into the branch that creates the pilot entry', rules=('R05.8',), edits=[
+        (_TS, "                                             'info'  : dict()\n                                            }\n", "                                             'info'  : dict()\n                                            }\n                        early_tasks = self._early.pop(pid, None)\n                        if early_tasks:\n                            for task in early_tasks:\n                                self._assign_pilot(task, pilot)\n                            self.advance(early_tasks,\n                                         rps.TMGR_STAGING_INPUT_PENDING,\n                                         publish=True, push=True)\n"),
+        (_TS, "                self._update_pilot_states(pilots)\n\n                for pilot in pilots:\n\n                    pid = pilot['uid']\n\n                    # if we have any early_bound tasks waiting for this pilots,\n                    # advance them now\n                    early_tasks = self._early.get(pid)\n                    if early_tasks:\n\n                        for task in early_tasks:\n                            self._assign_pilot(task, pilot)\n\n                        self.advance(early_tasks, rps.TMGR_STAGING_INPUT_PENDING,\n                                     publish=True, push=True)\n\n                        # these tasks are on their way now: forget them, or\n                        # a pilot which gets removed and added again would\n                        # receive them a second time\n                        del self._early[pid]\n", '                self._update_pilot_states(pilots)\n')]),
 ]
 
 SILENT = [
@@ -976,4 +2337,40 @@ SILENT = [
         (_P, "                    task['exit_code']    = exit_code\n                    task['target_state'] = rps.DONE\n", "                    task['target_state'] = rps.DONE\n"),
         (_P, "                    # task failed (we still run staging output)\n                    task['exit_code']        = exit_code\n", "                    # task failed (we still run staging output)\n"),
         (_P, "                self._prof.prof('unschedule_start', uid=tid)\n\n                if exit_code == 0:", "                self._prof.prof('unschedule_start', uid=tid)\n                task['exit_code'] = exit_code\n\n                if exit_code == 0:")]),
+    dict(name='R05.7 handler: renamed exception, hoisted trace, record statements swapped', edits=[
+        (_AO, "            except Exception as e:\n                self._log.exception('staging error')\n                task['exception']        = repr(e)\n                task['exception_detail'] = '\\n'.join(ru.get_exception_trace())\n\n                self.advance(task, rps.FAILED)", "            except Exception as err:\n                trace = '\\n'.join(ru.get_exception_trace())\n                self._log.exception('staging error')\n                task['exception_detail'] = trace\n                task['exception']        = repr(err)\n\n                self.advance(task, rps.FAILED)")]),
+    dict(name='R05.7 handler body extracted into a helper method', edits=[
+        (_AO, "                self._log.exception('staging error')\n                task['exception']        = repr(e)\n                task['exception_detail'] = '\\n'.join(ru.get_exception_trace())\n\n                self.advance(task, rps.FAILED)\n\n\n", "                self._log.exception('staging error')\n                self._staging_failed(task, e, ru.get_exception_trace())\n\n\n    # --------------------------------------------------------------------------\n    #\n    def _staging_failed(self, task, exc, trace):\n\n        task['exception']        = repr(exc)\n        task['exception_detail'] = '\\n'.join(trace)\n\n        self.advance(task, rps.FAILED)\n\n\n")]),
+    dict(name='R05.7 failed tasks collected (before the record) and failed after the loop (agent output)', edits=[
+        (_AO, "                self._log.exception('staging error')\n                task['exception']        = repr(e)\n                task['exception_detail'] = '\\n'.join(ru.get_exception_trace())\n\n                self.advance(task, rps.FAILED)", "                self._log.exception('staging error')\n                to_fail.append(task)\n                task['exception']        = repr(e)\n                task['exception_detail'] = '\\n'.join(ru.get_exception_trace())\n\n        if to_fail:\n            self.advance(to_fail, rps.FAILED)"),
+        (_AO, "        for task, actionables in staging_tasks:\n            try:\n                self._handle_task_staging(task, actionables)", "        to_fail = list()\n        for task, actionables in staging_tasks:\n            try:\n                self._handle_task_staging(task, actionables)")]),
+    dict(name='R05.7 best-effort staging only for tasks which failed already (hoisted outcome test)', edits=[
+        (_AO, "                self._log.exception('staging error')\n                task['exception']        = repr(e)\n", "                self._log.exception('staging error')\n\n                outcome = task['target_state']\n                if outcome != rps.DONE and \\\n                        task['description'].get('stage_on_error'):\n                    # the task failed on its own: keep its error\n                    self.advance(task, rps.TMGR_STAGING_OUTPUT_PENDING,\n                                       publish=True, push=True)\n                    continue\n\n                task['exception']        = repr(e)\n")],
+         note='changes behaviour, not the property: the task ends FAILED with its own error recorded'),
+    dict(name='R05.7 best-effort staging for failed tasks, early-continue form with `in`', edits=[
+        (_AO, "                self._log.exception('staging error')\n                task['exception']        = repr(e)\n                task['exception_detail'] = '\\n'.join(ru.get_exception_trace())\n\n                self.advance(task, rps.FAILED)", "                self._log.exception('staging error')\n                if task['target_state'] == rps.DONE or \\\n                        not task['description'].get('stage_on_error'):\n                    task['exception']        = repr(e)\n                    task['exception_detail'] = '\\n'.join(ru.get_exception_trace())\n                    self.advance(task, rps.FAILED)\n                    continue\n                self.advance(task, rps.TMGR_STAGING_OUTPUT_PENDING,\n                                   publish=True, push=True)")],
+         note='changes behaviour, not the property'),
+    dict(name='R05.7 executor handler fails through a keyword call', edits=[
+        (_P, "                self.publish(rpc.AGENT_UNSCHEDULE_PUBSUB, task)\n\n                self.advance_tasks(task, rps.FAILED, publish=True, push=False)\n\n\n    # --------------------------------------------------------------------------\n    #\n    def _handle_task(self, task):", "                self.publish(rpc.AGENT_UNSCHEDULE_PUBSUB, task)\n\n                self.advance_tasks(tasks=[task], state=rps.FAILED, push=False,\n                                   publish=True)\n\n\n    # --------------------------------------------------------------------------\n    #\n    def _handle_task(self, task):")]),
+    dict(name='R05.8 release loop: renamed locals, early-continue form, pop instead of get + del', edits=[
+        (_TS, "                self._update_pilot_states(pilots)\n\n                for pilot in pilots:\n\n                    pid = pilot['uid']\n\n                    # if we have any early_bound tasks waiting for this pilots,\n                    # advance them now\n                    early_tasks = self._early.get(pid)\n                    if early_tasks:\n\n                        for task in early_tasks:\n                            self._assign_pilot(task, pilot)\n\n                        self.advance(early_tasks, rps.TMGR_STAGING_INPUT_PENDING,\n                                     publish=True, push=True)\n\n                        # these tasks are on their way now: forget them, or\n                        # a pilot which gets removed and added again would\n                        # receive them a second time\n                        del self._early[pid]\n", "                self._update_pilot_states(pilots)\n\n                for added in pilots:\n\n                    key     = added['uid']\n                    waiting = self._early.pop(key, None)\n                    if not waiting:\n                        continue\n\n                    for task in waiting:\n                        self._assign_pilot(task, added)\n\n                    self.advance(waiting, rps.TMGR_STAGING_INPUT_PENDING,\n                                 publish=True, push=True)\n")]),
+    dict(name='R05.8 release loop iterates the pilot ids (comprehension) and looks the pilot up', edits=[
+        (_TS, "                self._update_pilot_states(pilots)\n\n                for pilot in pilots:\n\n                    pid = pilot['uid']\n\n                    # if we have any early_bound tasks waiting for this pilots,\n                    # advance them now\n                    early_tasks = self._early.get(pid)\n                    if early_tasks:\n", "                self._update_pilot_states(pilots)\n\n                pids = [p['uid'] for p in pilots]\n                for pid in pids:\n\n                    pilot = self._pilots[pid]['pilot']\n\n                    # if we have any early_bound tasks waiting for this pilots,\n                    # advance them now\n                    early_tasks = self._early.get(pid)\n                    if early_tasks:\n")]),
+    dict(name='R05.8 release loop extracted into a helper method', edits=[
+        (_TS, "                self._update_pilot_states(pilots)\n\n                for pilot in pilots:\n\n                    pid = pilot['uid']\n\n                    # if we have any early_bound tasks waiting for this pilots,\n                    # advance them now\n                    early_tasks = self._early.get(pid)\n                    if early_tasks:\n\n                        for task in early_tasks:\n                            self._assign_pilot(task, pilot)\n\n                        self.advance(early_tasks, rps.TMGR_STAGING_INPUT_PENDING,\n                                     publish=True, push=True)\n\n                        # these tasks are on their way now: forget them, or\n                        # a pilot which gets removed and added again would\n                        # receive them a second time\n                        del self._early[pid]\n", '                self._update_pilot_states(pilots)\n                self._release_early(pilots)\n'),
+        (_TS, '    # --------------------------------------------------------------------------\n    #\n    def _configure(self):\n        raise NotImplementedError("_configure() missing for \'%s\'" % self.uid)\n', '    # --------------------------------------------------------------------------\n    #\n    def _release_early(self, pilots):\n\n        for pilot in pilots:\n\n            pid = pilot[\'uid\']\n\n            early_tasks = self._early.get(pid)\n            if early_tasks:\n\n                for task in early_tasks:\n                    self._assign_pilot(task, pilot)\n\n                self.advance(early_tasks, rps.TMGR_STAGING_INPUT_PENDING,\n                             publish=True, push=True)\n                del self._early[pid]\n\n\n    # --------------------------------------------------------------------------\n    #\n    def _configure(self):\n        raise NotImplementedError("_configure() missing for \'%s\'" % self.uid)\n')]),
+    dict(name='R05.8 release loop only over pilots which have parked tasks', edits=[
+        (_TS, "                self._update_pilot_states(pilots)\n\n                for pilot in pilots:\n\n                    pid = pilot['uid']\n\n                    # if we have any early_bound tasks waiting for this pilots,\n                    # advance them now\n                    early_tasks = self._early.get(pid)\n                    if early_tasks:\n", "                self._update_pilot_states(pilots)\n\n                waited_for = [p for p in pilots if p['uid'] in self._early]\n                for pilot in waited_for:\n\n                    pid = pilot['uid']\n\n                    # if we have any early_bound tasks waiting for this pilots,\n                    # advance them now\n                    early_tasks = self._early.get(pid)\n                    if early_tasks:\n")]),
+    dict(name='R05.8 release loop over the keys of the pool, restricted to the added pilots', edits=[
+        (_TS, "                self._update_pilot_states(pilots)\n\n                for pilot in pilots:\n\n                    pid = pilot['uid']\n\n                    # if we have any early_bound tasks waiting for this pilots,\n                    # advance them now\n                    early_tasks = self._early.get(pid)\n                    if early_tasks:\n\n                        for task in early_tasks:\n                            self._assign_pilot(task, pilot)\n\n                        self.advance(early_tasks, rps.TMGR_STAGING_INPUT_PENDING,\n                                     publish=True, push=True)\n\n                        # these tasks are on their way now: forget them, or\n                        # a pilot which gets removed and added again would\n                        # receive them a second time\n                        del self._early[pid]\n", "                self._update_pilot_states(pilots)\n\n                added = {p['uid']: p for p in pilots}\n                for pid in list(self._early):\n\n                    if pid not in added:\n                        continue\n\n                    pilot       = added[pid]\n                    early_tasks = self._early.pop(pid)\n\n                    for task in early_tasks:\n                        self._assign_pilot(task, pilot)\n\n                    self.advance(early_tasks, rps.TMGR_STAGING_INPUT_PENDING,\n                                 publish=True, push=True)\n")]),
+    dict(name='R05.8 new pilots collected for logging only, release loop unchanged', edits=[
+        (_TS, "            with self._pilots_lock:\n\n                for pilot in pilots:\n\n                    pid = pilot['uid']\n\n                    if pid in self._pilots:\n                        if self._pilots[pid]['role'] == ADDED:\n                            raise ValueError('pilot already added (%s)' % pid)\n", "            with self._pilots_lock:\n\n                new_pilots = list()\n\n                for pilot in pilots:\n\n                    pid = pilot['uid']\n\n                    if pid in self._pilots:\n                        if self._pilots[pid]['role'] == ADDED:\n                            raise ValueError('pilot already added (%s)' % pid)\n"),
+        (_TS, "                                             'info'  : dict()\n                                            }\n\n                    self._pilots[pid]['role']  = ADDED\n", "                                             'info'  : dict()\n                                            }\n                        new_pilots.append(pid)\n\n                    self._pilots[pid]['role']  = ADDED\n"),
+        (_TS, "                self._update_pilot_states(pilots)\n\n                for pilot in pilots:\n\n                    pid = pilot['uid']\n\n                    # if we have any early_bound tasks waiting for this pilots,\n                    # advance them now\n                    early_tasks = self._early.get(pid)\n                    if early_tasks:\n", "                self._log.debug('new pilots: %s', new_pilots)\n                self._update_pilot_states(pilots)\n\n                for pilot in pilots:\n\n                    pid = pilot['uid']\n\n                    # if we have any early_bound tasks waiting for this pilots,\n                    # advance them now\n                    early_tasks = self._early.get(pid)\n                    if early_tasks:\n")]),
+    dict(name='R05.3 work loop tests the result of work_cb directly', edits=[
+        (_U, "                ret = self.work_cb()\n                if not ret:\n                    break", "                if not self.work_cb():\n                    break")]),
+    dict(name='R05.8 pilot entry updated through a local alias', edits=[
+        (_TS, "                    self._pilots[pid]['role']  = ADDED\n                    self._pilots[pid]['pilot'] = pilot\n", "                    entry = self._pilots[pid]\n                    entry['role']  = ADDED\n                    entry['pilot'] = pilot\n")]),
+    dict(name='R05.8 parking test on the cached entry, early-continue form', edits=[
+        (_TS, "                    pilot = self._pilots.get(pid, {}).get('pilot')\n                    if pilot:\n                        self._assign_pilot(task, pilot)\n                        self.advance(task, rps.TMGR_STAGING_INPUT_PENDING,\n                                     publish=True, push=True)\n\n                    else:\n", "                    entry = self._pilots.get(pid)\n                    if entry and entry['pilot']:\n                        self._assign_pilot(task, entry['pilot'])\n                        self.advance(task, rps.TMGR_STAGING_INPUT_PENDING,\n                                     publish=True, push=True)\n                        continue\n\n                    if True:\n")]),
 ]
